@@ -9,6 +9,8 @@ func ApplyFunc1ArrayType(dest, source NDArrayType, fn func(val ArrayType) ArrayT
 		for i := range destSlice {
 			destSlice[i] = fn(sourceSlice[i])
 		}
+		// Unroll() of an array over C memory is a copy: store the results back
+		dest.CopyFrom(ArrayFromSliceArrayType(destSlice, dest.Shape()))
 
 		return
 	}
@@ -35,6 +37,8 @@ func AddToArrayTypeArray(dest, source NDArrayType) {
 		for i := range destSlice {
 			destSlice[i] += sourceSlice[i]
 		}
+		// Unroll() of an array over C memory is a copy: store the results back
+		dest.CopyFrom(ArrayFromSliceArrayType(destSlice, dest.Shape()))
 
 		return
 	}
